@@ -142,6 +142,7 @@ pub fn profile(prop: &str) -> Profile {
         "C16" => {
             p.prop = "C16";
             p.w[W_TRUNC] = 3;
+            p.w[W_CLEAR] = 2;
             p.w[W_SETMIN] = 3;
             p.w[W_DISCARD] = 2;
             p.w[W_INCDISC] = 2;
@@ -271,8 +272,10 @@ pub fn gen_cfg(rng: &mut Rng, p: &Profile) -> Cfg {
     if p.prop == "C03" && rng.chance(1, 2) {
         c.max_align = *rng.pick(&[16usize, 64]);
     }
-    if c.backend == Backend::File {
-        c.unify = true;
+    // a file-backed arena always uses the unified layout, whatever `with_unify` says: both values are generated.
+    // Single-client file histories also map at page-multiple offsets inside the file.
+    if c.backend == Backend::File && matches!(p.prop, "C01" | "C03" | "C05" | "C08" | "C10" | "C13" | "C17" | "C18" | "C20") {
+        c.offset = *rng.pick(&[0u64, 0, 0, 4096, 8192]);
     }
     c
 }
